@@ -189,6 +189,8 @@ type CaseHdrLine struct {
 	Name B `json:"name"`
 	WS   B `json:"ws"`  // whitespace between name and ':'
 	Tail B `json:"val"` // value text (no CR/LF)
+	// Pre: bytes in front of the line (the line is parsed at offset len(Pre), like any header after the first)
+	Pre B `json:"pre,omitempty"`
 }
 
 var C16Parse = Register(&Check[CaseHdrLine]{
@@ -207,13 +209,23 @@ var C16Parse = Register(&Check[CaseHdrLine]{
 		}
 		ws := rapid.SampledFrom([]string{"", "", " ", "\t", "  ", " \t "}).Draw(t, "ws")
 		tail := rapid.SampledFrom([]string{"v", "", " a b", "1"}).Draw(t, "tail")
-		return CaseHdrLine{Name: clean, WS: B(ws), Tail: B(tail)}
+		c := CaseHdrLine{Name: clean, WS: B(ws), Tail: B(tail)}
+		switch rapid.IntRange(0, 3).Draw(t, "pre_k") {
+		case 0:
+		case 1:
+			c.Pre = B("\n")
+		case 2:
+			c.Pre = B("Via: SIP/2.0/UDP h\r\n")
+		default:
+			c.Pre = bytes.Repeat([]byte("x"), rapid.IntRange(1, 40).Draw(t, "pre_n"))
+		}
+		return c
 	},
 	Eval: func(c CaseHdrLine) Result {
-		line := append(append(append(append([]byte{}, c.Name...), c.WS...), ':'), c.Tail...)
+		line := append(append(append(append(append([]byte{}, c.Pre...), c.Name...), c.WS...), ':'), c.Tail...)
 		line = append(line, "\r\nX"...)
 		var h sipsp.Hdr
-		o, err := sipsp.ParseHdrLine(line, 0, &h, nil)
+		o, err := sipsp.ParseHdrLine(line, len(c.Pre), &h, nil)
 		if err != 0 {
 			return viol("ParseHdrLine(%s) = %d, %v; want success", B(line), o, err)
 		}
